@@ -28,7 +28,7 @@ SLACK = 8
 
 def bounds(tier, seed):
     q = tier == 'quick'
-    return {'documents_per_stream': 3 if q else 4, 'sizes': ['empty', 10, 'block/2', 'block-1', 'block+1', '2.5 blocks', '3 blocks + 5'], 'tails_in_blocks': [0, 10] if q else [0, 10, '100 (behind one or two documents)'],
+    return {'documents_per_stream': 3 if q else 4, 'sizes': ['empty', 10, 'block/2', 'block-1', 'block+1', '2.5 blocks', '3 blocks + 5'], 'single_token_documents': ['block+1', '3 blocks + 5', '5 blocks + 3', '9 blocks + 1'], 'tails_in_blocks': [0, 10] if q else [0, 10, '100 (behind one or two documents)'],
             'schedules': ['default', 'every read short by 1', 'short by 7', 'short by half a block']}
 
 
@@ -64,6 +64,9 @@ def measure_block(Loader):
     return s.maxreq
 
 
+LONG_TOKENS = ('arun', 'dq', 'sq', 'cmt')
+
+
 def make_doc(n, wide=False):
     """one explicit document of about n units.  wide=False: a block sequence of short ASCII items; True: items with a
     2-byte character; 'run': one plain scalar that is a run of 2-byte characters starting at an odd byte offset (every
@@ -71,6 +74,10 @@ def make_doc(n, wide=False):
     an explicit '...' and followed by comment / blank lines (as many units again, at least one line)"""
     if wide == 'run':
         return '--- x' + '\u00e9' * max(0, (n - 6) // 2) + '\n'
+    if wide == 'fseq':            # a flow sequence: closed, so that a directive may follow without '...'
+        return '--- [' + 'item, ' * max(0, (n - 10) // 6) + 'item]\n'
+    if wide in LONG_TOKENS:       # the whole document is one token of about n units (plain, quoted, or a comment after a value)
+        return {'arun': '--- x%s\n', 'dq': '--- "%s"\n', 'sq': "--- '%s'\n", 'cmt': '--- v # %s\n'}[wide] % ('y' * max(1, n - 9))
     if n == 0:
         return '---\n' if wide != 'end' else '---\n...\n# c\n\n'
     item = '- it\u00e9m\n' if wide is True else '- item\n'
@@ -221,7 +228,10 @@ def check_stream(T, sizes, wide, api, be, Loader, block, tails, schedules):
 
 BADS = [('scanner', '--- "a\\qb"\n'), ('scanner2', '--- a: b: c\n'), ('parser', '--- [a, b\n'), ('parser2', '--- {a: b]\n'), ('composer', '--- [*undefined]\n'),
         ('composer2', '--- [&a 1, &a 2]\n'), ('constructor', '--- !nope x\n'), ('constructor2', '--- {[a]: b}\n'),
-        ('raw-scanner', '@ not yaml\n'), ('raw-scanner2', '`x\n')]
+        ('raw-scanner', '@ not yaml\n'), ('raw-scanner2', '`x\n'),
+        # malformed directives (rejected by the parser): after documents that are closed (quoted scalar, flow collection) they
+        # may follow without an explicit document end
+        ('directive', '%YAML 2.0\n--- x\n'), ('directive2', '%YAML 1.1\n%YAML 1.1\n--- x\n'), ('directive3', '%TAG !a! x\n%TAG !a! y\n--- x\n')]
 
 
 def check_bad(T, nsizes, bad, api, be, Loader, block, ender=False):
@@ -230,17 +240,18 @@ def check_bad(T, nsizes, bad, api, be, Loader, block, ender=False):
         return
     if bname.startswith('composer') and api not in ('load_all', 'compose_all'):
         return
-    for sizes, ender in itertools.product(itertools.product((0, 10, block + 1), repeat=nsizes), (False, True)):
+    shapes = ('dq', 'fseq') if bname.startswith('directive') else (False,)
+    for sizes, ender, shape in itertools.product(itertools.product((0, 10, block + 1), repeat=nsizes), (False, True), shapes):
         if bname.startswith('raw') and not (ender and sizes):
             continue
         # ender: every good document is closed by an explicit '...' and the malformed text follows it directly
-        text = ''.join(make_doc(sz) + ('...\n' if ender else '') for sz in sizes)
+        text = ''.join(make_doc(sz, shape) + ('...\n' if ender else '') for sz in sizes)
         full = text + btext + '--- after\n'
         for binary in (False, True):
             data = full.encode('utf-8') if binary else full
             for short in (0, 7):
                 T.evaluations += 1
-                case = {'sizes': list(sizes), 'bad': bname, 'api': api, 'backend': be, 'binary': binary, 'short': short, 'explicit_end': ender}
+                case = {'sizes': list(sizes), 'bad': bname, 'api': api, 'backend': be, 'binary': binary, 'short': short, 'explicit_end': ender, 'shape': shape}
                 if T.trace: T.begin(case)
                 st = RecStream(data, short)
                 ndoc = 0
@@ -370,6 +381,7 @@ def plan(tier, seed):
             jobs.append(('abandon', be, api))
             jobs.append(('readerbad', be, api))
             jobs.append(('iostreams', be, api))
+            jobs.append(('longtok', be, api))
             for b in range(len(BADS)):
                 jobs.append(('bad', be, api, b, 2))
             nsv = 7
@@ -397,6 +409,17 @@ def run_job(job, T):
     elif kind == 'iostreams':
         check_io_streams(T, api, be, Loader, block)
         T.sample('consumption', {'api': api, 'backend': be, 'stream': 'io.StringIO / io.BytesIO'})
+    elif kind == 'longtok':
+        # one token much longer than a refill block: the look-ahead bound is relative to the end of the document, so it
+        # must not grow with the length of the token that is being scanned
+        scheds = [('default', 0), ('short-by-7', 7)]
+        for w in LONG_TOKENS + ('run',):
+            if w == 'cmt' and api != 'load_all':
+                continue      # marks of tokens / events / nodes end before a trailing comment; only load_all measures from the end of the document text
+            for n in (block + 1, 3 * block + 5, 5 * block + 3, 9 * block + 1):
+                check_stream(T, (n,), w, api, be, Loader, block, (0, 10), scheds)
+                check_stream(T, (10, n), w, api, be, Loader, block, (10,), scheds[:1])
+        T.sample('consumption', {'api': api, 'backend': be, 'long_token_units': 9 * block + 1})
     elif kind == 'readerbad':
         check_reader_bad(T, api, be, Loader, block)
         T.sample('errors', {'api': api, 'backend': be, 'bad': 'reader'})
